@@ -1881,8 +1881,8 @@ pub fn run(ctx: &Ctx) -> Report {
     rep.need(L_PANIC, 10_000 * scale);
     rep.need(L_JOIN, 200 * scale);
     rep.need(L_THREAD, 1_000 * scale);
-    run_regressions(ctx, &mut rep, &|v| replay(ctx, v));
-    report_known(ctx, &mut rep, &|v| replay(ctx, v));
+    run_regressions(ctx, &mut rep, &|v| replay(&ctx.strict_clone(), v));
+    report_known(ctx, &mut rep, &|v| replay(&ctx.strict_clone(), v));
     let tol = ctx.tolerate(KF_WTF8);
     let out = if q {
         run_random(ctx.seed, 400_000, 1000, decode, |c, st| oracle(c, st, tol))
